@@ -52,7 +52,8 @@ class Prop(PropBase):
                 axis = "time"
             L = rng.choice([0, 1, 2, 3, 5, 16, 17, 64, rng.randint(1, 400)])     # "any signal": also one without time samples
             n = rng.choice([1, 2, 3, 4, 5, 8, 9])
-            rate = rng.choice([("1", "Hz"), ("1", "kHz"), ("16", "MHz"), ("1", "GHz"), ("123.456", "MHz"), ("0.5", "Hz")])
+            rate = rng.choice([("1", "Hz"), ("1", "kHz"), ("16", "MHz"), ("1", "GHz"), ("123.456", "MHz"), ("0.5", "Hz"),
+                               ("4", "GHz"), ("2.5", "GHz")])
             cf = rng.choice([("400", "MHz"), ("1.4", "GHz"), ("0", "Hz"), ("327", "MHz"), ("8", "GHz")])
             bw = rng.choice([("1", "MHz"), ("1", "kHz"), ("3.125", "MHz"), ("250", "Hz")])
             al = rng.choice(["bottom", "center", "top"])
